@@ -393,10 +393,12 @@ def byx_residuals(p, b, F):
 def byx_res_ok(p, b, F, r1, r2, r3):
     """scale-aware acceptance of the residuals of the defining equations: each relative to the quantity it
     constrains; the bias equation gets the floor 2e-15 (r_y + bias r_x) of the two documented subtractions
-    p_x = r_x (1 - r_y), p_y = r_y (1 - r_x), with r_x = p_x + p_z and r_y = p_y + p_z read off the candidate"""
+    p_x = r_x (1 - r_y), p_y = r_y (1 - r_x), with r_x = p_x + p_z and r_y = p_y + p_z read off the candidate;
+    the absolute sub-normal rounding noise SUBN of p_y and of p_x enters the bias equation as SUBN (1 + bias) (a p_x that
+    underflows at bias ~1e307 is not a violation)"""
     rx, ry = F[1] + F[3], F[2] + F[3]
     return (abs(r1) <= RES_SUM * p and
-            abs(r2) <= RES * b * abs(F[1]) + 2 * FLOOR * (abs(ry) + b * abs(rx)) + SUBN and
+            abs(r2) <= RES * b * abs(F[1]) + 2 * FLOOR * (abs(ry) + b * abs(rx)) + SUBN * (1 + b) and
             abs(r3) <= RES * abs(F[3]) + TINY)
 
 
